@@ -1232,8 +1232,8 @@ FULL STATEMENTS AIMED AT (not proved):
   `fitLoop_terminates` the total `replaceStep_total`.
 What is missing for the first is the invariance of `VInv` / `validB` under `place_nodes` when the unplaced slice is open:
 the validity of `close_node_start`'s results (fill prefix + children accepted; needs the request slice's validity carried
-along the unplaced slice through `drop_from_fragment` / `open_more`) and `LevelR` for the levels `place_nodes` pushes for the
-open end (`pushOpenEnd`; their coherence is `pushOpenEnd_coh`).  The driver evaluates `validB` after **every** iteration of
+along the unplaced slice through `drop_from_fragment` / `open_more`) and `LevelR` for the levels `place_nodes` pushes for
+the open end (`pushOpenEnd`; their coherence is `pushOpenEnd_coh`).  The driver evaluates `validB` after **every** iteration of
 every generated request (op `fitEmit`, counter "validity invariant after every iteration"): true on all runs (about 4 900
 runs of the loop per seed, closed and open slices, bundled-family and random schemas), and the tie checks the real step's
 payload with the independent validator whenever the hypotheses of `fit_emits_valid_payload_of_inv` hold.
